@@ -316,7 +316,8 @@ def _run_one(engine, prop, base_seed, tier, index):
     run = engine.generate(rng, tier, index)
     run.update({"property": prop, "index": index, "seed": seed,
                 "base_seed": base_seed, "tier": tier})
-    faulthandler.dump_traceback_later(RUN_WATCHDOG_S, exit=True)
+    faulthandler.dump_traceback_later(
+        getattr(engine, "watchdog_s", RUN_WATCHDOG_S), exit=True)
     try:
         res = engine.execute(run)
     finally:
@@ -363,6 +364,7 @@ def run_batch(engine_name, prop, tier, base_seed, n_runs, budget_s, workers,
     """Execute runs 0..n_runs-1 (stopping early when budget_s is used up)."""
     from . import engines
     engine = engines.get(engine_name)   # import in the parent, before forking
+    chunk = getattr(engine, "chunk", chunk)
     t0 = time.monotonic()
     want_samples = {0, 1, 2}
     results = {}
@@ -407,8 +409,10 @@ def run_batch(engine_name, prop, tier, base_seed, n_runs, budget_s, workers,
                 if not exhausted:
                     submit_next()
             while pending:
-                done, _ = cf.wait(list(pending), timeout=RUN_WATCHDOG_S * 2,
-                                  return_when=cf.FIRST_COMPLETED)
+                done, _ = cf.wait(
+                    list(pending),
+                    timeout=getattr(engine, "watchdog_s", RUN_WATCHDOG_S)
+                    * (chunk + 1), return_when=cf.FIRST_COMPLETED)
                 if not done:
                     raise HarnessError("worker pool stalled")
                 for fut in done:
